@@ -543,11 +543,17 @@ func c07FaultedSource(r *mon.Run) {
 		k := world.Fixture(kn)
 		secret := randBig(jr, 200)
 		cc := c07MkCred(jr, k, secret)
-		for _, nonrev := range []bool{false, true} {
+		for vi, nonrev := range []bool{false, true, false} {
 			log := &c07log{}
 			ctx := bi(1)
+			withRange := vi == 2
 			mk := func(op string, n int64) (d *gabi.ProofD, err error, pv any) {
 				pv, _ = mon.Try(func() {
+					if withRange {
+						st, _ := rangeproof.NewStatement(rangeproof.GreaterOrEqual, bi(18))
+						d, err = cc.c.C.CreateDisclosureProof([]int{1}, map[int][]*rangeproof.Statement{2: {st}}, false, ctx, bi(n))
+						return
+					}
 					d, err = cc.c.C.CreateDisclosureProof([]int{2}, nil, nonrev, ctx, bi(n))
 				})
 				return
@@ -558,13 +564,17 @@ func c07FaultedSource(r *mon.Run) {
 				}
 			}
 			for rep := int64(0); rep < 2; rep++ {
-				failedDraws(r.Pick(16, 40), func(desc string, hit func() bool) {
+				reads := r.Pick(16, 40)
+				if withRange {
+					reads = r.Pick(30, 60)
+				}
+				failedDraws(reads, func(desc string, hit func() bool) {
 					n := 1000 + rep
 					d, err, pv := mk(desc, n)
 					if !hit() {
 						return
 					}
-					r.Distinct("faulted-source", kn, nonrev, desc, rep)
+					r.Distinct("faulted-source", kn, nonrev, withRange, desc, rep)
 					switch {
 					case pv != nil:
 						r.Eval("faulted-source", "panic")
@@ -577,7 +587,7 @@ func c07FaultedSource(r *mon.Run) {
 					}
 				})
 			}
-			c07Check(r, fmt.Sprintf("faulted-source %s nonrev=%v", kn, nonrev), log.events)
+			c07Check(r, fmt.Sprintf("faulted-source %s nonrev=%v range=%v", kn, nonrev, withRange), log.events)
 		}
 	}
 }
